@@ -275,6 +275,120 @@ theorem bulk_extLookup {b : Engine} (hb : IsBulk ns es b) (hnd : (ns.map (·.ext
       exact hex ⟨p.2, h1, by rw [h2]; exact hqx⟩
     rw [n1, n2]; rfl
 
+/-! ### properties -/
+
+/-- the relationship of the engine a bulk edge stands for (type by ID) -/
+def edgeOf (e : BulkEdge) : Edge :=
+  ⟨bulkIid ns e.src, ((bulkInterner ns es).getId e.rel).getD 0, bulkIid ns e.dst⟩
+
+def edgeInsM : List ((Edge × Nat) × PV) :=
+  es.flatMap (fun e => e.props.map (fun kv => ((edgeOf ns es e, kv.1), kv.2)))
+
+theorem flatMap_map_comm {α β γ δ} (l : List α) (f : α → List β) (g : α → β → γ) (h : γ → δ) :
+    (l.flatMap (fun a => (f a).map (g a))).map h = l.flatMap (fun a => (f a).map (fun b => h (g a b))) := by
+  induction l with
+  | nil => rfl
+  | cons a as ih =>
+    rw [List.flatMap_cons, List.flatMap_cons, List.map_append, ih, List.map_map]
+    rfl
+
+theorem bulkStore_eq :
+    bulkStore ns es =
+      ((edgeInsM ns es).map (fun p => (SKey.edge p.1.1 p.1.2, p.2))).reverse ++
+      ((nodeIns ns.zipIdx).map (fun p => (SKey.node p.1.1 p.1.2, p.2))).reverse := by
+  have h1 := flatMap_map_comm ns.zipIdx (fun p => p.1.props) (fun p kv => ((p.2, kv.1), kv.2))
+    (fun p => (SKey.node p.1.1 p.1.2, p.2))
+  have h2 := flatMap_map_comm es (fun e => e.props) (fun e kv => ((edgeOf ns es e, kv.1), kv.2))
+    (fun p => (SKey.edge p.1.1 p.1.2, p.2))
+  unfold nodeIns edgeInsM
+  rw [h1, h2]
+  unfold bulkStore edgeOf
+  rw [List.reverse_append]
+
+theorem isBulk_visible {b : Engine} (hb : IsBulk ns es b) : b.visibleStore = bulkStore ns es := by
+  unfold Engine.visibleStore
+  rw [hb.propsRoot, hb.storeRoot, hb.store]; rfl
+
+theorem bulk_nprop {b : Engine} (hb : IsBulk ns es b) (hnd : (ns.map (·.ext)).Nodup) (n k : Nat) :
+    b.nodeProp n k = (bulkGraph ns es).nprop n k := by
+  obtain ⟨_, _, _, _, g5, _⟩ := txLoad_graph ns es hnd
+  unfold Engine.nodeProp Graph.nprop bulkGraph
+  rw [hb.runs, isBulk_visible ns es hb, g5, lookup_setAll]
+  simp only [npropRuns, Store.get]
+  rw [bulkStore_eq, List.lookup_append, ← List.map_reverse, ← List.map_reverse, lookup_map_node_edge, lookup_map_node]
+  cases (nodeIns ns.zipIdx).reverse.lookup (n, k) <;> rfl
+
+/-- id and name of a relationship type denote the same bulk edges -/
+theorem edge_key_iff (e : BulkEdge) (he : e ∈ es) (a r c nm : Nat) (hr : (bulkInterner ns es)[r]? = some nm) :
+    (edgeOf ns es e == (⟨a, r, c⟩ : Edge)) = (relOf ns e == (⟨a, nm, c⟩ : Rel)) := by
+  obtain ⟨i, hi1, hi2⟩ := bulk_getId ns es e.rel (rel_interned ns es e he)
+  have hiff : i = r ↔ e.rel = nm := by
+    constructor
+    · intro h; subst h; rw [hi2] at hr; cases hr; rfl
+    · intro h; subst h; exact name_inj _ (bulkInterner_nodup ns es) i r _ hi2 hr
+  rw [Bool.eq_iff_iff]
+  simp only [beq_iff_eq, edgeOf, relOf, hi1, Option.getD_some, Edge.mk.injEq, Rel.mk.injEq]
+  constructor
+  · rintro ⟨h1, h2, h3⟩; exact ⟨h1, hiff.mp h2, h3⟩
+  · rintro ⟨h1, h2, h3⟩; exact ⟨h1, hiff.mpr h2, h3⟩
+
+theorem lookup_two_keys {α κ κ'} [BEq κ] [LawfulBEq κ] [BEq κ'] [LawfulBEq κ'] (X : List α) (f : α → κ) (f' : α → κ')
+    (val : α → PV) (key : κ) (key' : κ') (h : ∀ x ∈ X, (f x == key) = (f' x == key')) :
+    (X.map (fun x => (f x, val x))).lookup key = (X.map (fun x => (f' x, val x))).lookup key' := by
+  induction X with
+  | nil => rfl
+  | cons x xs ih =>
+    have hx := h x List.mem_cons_self
+    have ih' := ih (fun y hy => h y (List.mem_cons_of_mem _ hy))
+    simp only [List.map_cons, List.lookup_cons]
+    have e1 : (key == f x) = (f x == key) := by
+      by_cases hh : key = f x
+      · subst hh; rfl
+      · have a1 : (key == f x) = false := by simpa using hh
+        have a2 : (f x == key) = false := by simpa using (fun h' => hh h'.symm)
+        rw [a1, a2]
+    have e2 : (key' == f' x) = (f' x == key') := by
+      by_cases hh : key' = f' x
+      · subst hh; rfl
+      · have a1 : (key' == f' x) = false := by simpa using hh
+        have a2 : (f' x == key') = false := by simpa using (fun h' => hh h'.symm)
+        rw [a1, a2]
+    rw [e1, e2, hx, ih']
+
+theorem bulk_eprop {b : Engine} (hb : IsBulk ns es b) (hnd : (ns.map (·.ext)).Nodup)
+    (r nm a c k : Nat) (hr : b.interner[r]? = some nm) :
+    b.edgeProp ⟨a, r, c⟩ k = (bulkGraph ns es).eprop ⟨a, nm, c⟩ k := by
+  obtain ⟨_, _, _, _, _, _, g7⟩ := txLoad_graph ns es hnd
+  rw [hb.interner] at hr
+  unfold Engine.edgeProp Graph.eprop bulkGraph
+  rw [hb.runs, isBulk_visible ns es hb, g7, lookup_setAll]
+  simp only [epropRuns, Store.get]
+  rw [bulkStore_eq, List.lookup_append, ← List.map_reverse, ← List.map_reverse, lookup_map_edge, lookup_map_edge_node]
+  simp only [Option.or_none]
+  -- the two insertion lists come from the same pairs (edge, key/value)
+  let X : List (BulkEdge × (Nat × PV)) := es.flatMap (fun e => e.props.map (fun kv => (e, kv)))
+  have hM : edgeInsM ns es = X.map (fun x => ((edgeOf ns es x.1, x.2.1), x.2.2)) := by
+    unfold edgeInsM
+    simp only [X, List.map_flatMap, List.map_map]; rfl
+  have hS : edgeInsSpec ns es = X.map (fun x => ((relOf ns x.1, x.2.1), x.2.2)) := by
+    unfold edgeInsSpec
+    simp only [X, List.map_flatMap, List.map_map]; rfl
+  rw [hM, hS, ← List.map_reverse, ← List.map_reverse]
+  have := lookup_two_keys X.reverse (fun x => (edgeOf ns es x.1, x.2.1)) (fun x => (relOf ns x.1, x.2.1))
+    (fun x => x.2.2) ((⟨a, r, c⟩ : Edge), k) ((⟨a, nm, c⟩ : Rel), k) (by
+      intro x hx
+      have hxm : x ∈ X := List.mem_reverse.mp hx
+      obtain ⟨e, he, hxe⟩ := List.mem_flatMap.mp hxm
+      obtain ⟨kv, _, rfl⟩ := List.mem_map.mp hxe
+      have := edge_key_iff ns es e he a r c nm hr
+      rw [Bool.eq_iff_iff] at this ⊢
+      simp only [beq_iff_eq, Prod.mk.injEq] at this ⊢
+      constructor
+      · rintro ⟨h1, h2⟩; exact ⟨this.mp h1, h2⟩
+      · rintro ⟨h1, h2⟩; exact ⟨this.mpr h1, h2⟩)
+  rw [this]
+  cases (X.reverse.map (fun x => ((relOf ns x.1, x.2.1), x.2.2))).lookup ((⟨a, nm, c⟩ : Rel), k) <;> rfl
+
 end
 
 end Nervus.Storage
